@@ -558,7 +558,7 @@ func GenE1(prop string, seed uint64) *Program {
 	}
 	r := NewRng(seed)
 	g := &gen{r: r, p: p}
-	prog := &Program{Engine: "e1", Seed: seed, ReadAll: p.ReadAll}
+	prog := &Program{Engine: "e1", Seed: seed, ReadAll: p.ReadAll, CrashAt: -1}
 	prog.OnDisk = r.Chance(p.OnDiskPct)
 	prog.NColl = 1 + r.Intn(p.MaxColl)
 	if prop == "C11" && prog.NColl < 2 {
